@@ -68,6 +68,10 @@ class Events(ast.NodeVisitor):
         self.out = []
         self.queued = queued
 
+    def forwards_rest(self, call) -> bool:
+        """the call passes on the remaining offered nodes: `f(*queue, ...)`"""
+        return any(isinstance(a, ast.Starred) and isinstance(a.value, ast.Name) and a.value.id in REST[-1] for a in call.args)
+
     def visit_FunctionDef(self, node):
         return
 
@@ -89,7 +93,7 @@ class Events(ast.NodeVisitor):
             elif name in LXML_MUTATORS and is_etree(f.value):
                 self.out.append(("mutate", "lxml." + name))
             elif name in ENTRY_CALLS:
-                self.out.append(("queued" if self.queued else "call", name))
+                self.out.append(("queued" if self.queued or self.forwards_rest(node) else "call", name))
         elif isinstance(f, ast.Name):
             if f.id in CHECKERS:
                 self.out.append(("guard", f.id))
@@ -130,9 +134,41 @@ def stmt_events(stmt, queued) -> list:
     return ev.out
 
 
+REST: list[set] = [set()]
+
+
+def rest_names(fn) -> set:
+    """names that hold the further offered nodes of a multi-node call: the function's `*args`, the starred target of an
+    unpacking (`this, *queue = nodes`), the results of a checking helper that are unpacked (`this, queue = ...`), and
+    plain aliases of such names"""
+    names = set()
+    if fn.args.vararg:
+        names.add(fn.args.vararg.arg)
+    changed = True
+    while changed:
+        changed = False
+        for n in ast.walk(fn):
+            if not isinstance(n, ast.Assign):
+                continue
+            for t in n.targets:
+                new = set()
+                if isinstance(t, (ast.Tuple, ast.List)):
+                    for e in t.elts:
+                        if isinstance(e, ast.Starred) and isinstance(e.value, ast.Name):
+                            new.add(e.value.id)
+                    if isinstance(n.value, ast.Call) and isinstance(n.value.func, ast.Attribute) and n.value.func.attr in CHECKERS:
+                        new |= {e.id for e in t.elts[1:] if isinstance(e, ast.Name)}
+                elif isinstance(t, ast.Name) and isinstance(n.value, ast.Name) and n.value.id in names:
+                    new.add(t.id)
+                if not new <= names:
+                    names |= new
+                    changed = True
+    return names
+
+
 def is_queue_test(test) -> bool:
     """`if queue:` - the branch that handles the further nodes of a multi-node call"""
-    return isinstance(test, ast.Name) and test.id == "queue"
+    return isinstance(test, ast.Name) and test.id in REST[-1]
 
 
 def paths_of(body, queued=False):
@@ -217,7 +253,10 @@ def generate(repo: Path) -> str:
             continue
         rel, fn = found[q]
         paths = []
-        for ev, _ in paths_of(fn.body):
+        REST.append(rest_names(fn))
+        raw = paths_of(fn.body)
+        REST.pop()
+        for ev, _ in raw:
             if ev not in paths:
                 paths.append(ev)
         body = ",\n    ".join("[" + ", ".join(".%s %s" % (k, lean_str(w)) for k, w in p) + "]" for p in paths)
